@@ -1,1 +1,3 @@
 import SynKitProofs.Props.C15
+import SynKitProofs.Props.C01
+import SynKitProofs.Props.C02
